@@ -342,7 +342,7 @@ class C11Prop(LineFileBase):
     thorough_cases = 6000
     rule = ("file contents from {empty, empty lines, multi-byte UTF-8, lines > 8192 bytes (thorough: > 65536), lone \\r and "
             "\\r\\n, missing final \\n} x all eight variants (unmodified) x index sources {built, offset list, index file, "
-            "permutation, subset}; scripts interleave len, f[i] (negative and out of range), slices, iterable selectors and "
+            "permutation, subset}; scripts interleave len, f[i] (negative and out of range), slices, iterable selectors, close/open sessions and "
             "next() on up to three live iterators; every result compared with the Lean model and with content.split('\\n'); "
             "non-trivial = at least 5 ops")
     assumptions = ["files are valid UTF-8", "caller-supplied offsets are line starts of the file",
@@ -407,10 +407,10 @@ class C11Prop(LineFileBase):
                     body.append(f"iter_next {rng.randrange(niter)}")
                 elif q < 0.93:
                     body.append("len")
-                elif q < 0.97:
+                elif q < 0.975:
                     # a second session on the same object (`with f:` twice): state kept across close/open must not leak
                     body.append("close")
-                    if rng.random() < 0.2:
+                    if rng.random() < 0.4:
                         body.append(f"get {ri()}")  # a read on the closed object
                     body.append("open")
                     if rng.random() < 0.6 and nl:
@@ -427,7 +427,7 @@ class C12Prop(LineFileBase):
     quick_cases = 500
     thorough_cases = 6000
     rule = ("initial contents of 0-12 lines x the four mutable variants (plain and record) x edit scripts to length 30 (item "
-            "assignment, deletion, insert, append, extend, pop, remove, reverse, +=, with negative and out-of-range positions) "
+            "assignment, deletion, insert, append, extend, pop, remove, reverse, += (lists, tuples, one-shot iterables), negative and out-of-range positions) "
             "interleaved with reads, dirty and save with line_ending in {\\n, \\r\\n, \\t, ''}; saved bytes, reopened content "
             "(both flavours) and the untouched source bytes are checked; compared with the Lean model and a Python list; "
             "non-trivial = at least 5 ops with an edit")
